@@ -60,6 +60,9 @@ def alphabet(name, spec):
             + [("e", 0, 1, (0, last) + n) for n in o2]
             + [("e", 0, 2, (last, 0) + n) for n in o2]
         )
+    if name == "pairs":  # every block pair of a three-block problem, in any order
+        return [("e", 0, 1, (0, 1, 1)), ("e", 0, 1, (1, 2, 1)), ("e", 0, 1, (0, 2, 1)), ("e", 0, 2, (2, 0, 1)),
+                ("e", 0, 0, (0, 0, 2)), ("e", 0, 0, (1, 1, 2)), ("e", 0, 0, (2, 2, 2)), ("e", 0, 1, (2, 1, 1))]
     if name == "full":
         return elem_letters(0, nb, o1)
     if name == "mixed":
@@ -101,6 +104,8 @@ def cases(tier, seed):
         ("H22", "full", 2 if q else 3),
         ("H22", "mixed", 3 if q else 4),
         ("H22", "twin", 3 if q else 4),
+        ("H111shared", "pairs", 3 if q else 5),
+        ("N111shared", "pairs", 3 if q else 4),
         ("H121", "core12", 4 if q else 6),
         ("H121", "mixed", 2 if q else 3),
         ("H22fd0", "core12", 4 if q else 6),
